@@ -2,16 +2,193 @@
 Model/Sparse.lean on generated buffer sequences: same seek / write calls, same file; (2) file-operation protocol: the zstd binary built from the
 current tree runs under strace on generated invocations x file sets; the normalised open / close / unlink / SIGINT-handler / exit skeleton must equal
 Cli.program; directory monitors (recoverable, no clobber, no artefact, exit status = library verdict, --sparse == --no-sparse); (3) kill points: every
-system call of selected runs is the point of a SIGKILL (and of a SIGINT): afterwards the source is intact or the destination complete."""
+system call of selected runs is the point of a SIGKILL (and of a SIGINT): afterwards the source is intact or the destination complete.
+(1b) the sparse writer on zero runs of 1 / 2 / 4 / 8 GiB and around (virtual file: harness/zvh_sparsebig.c) vs the length view of the model (unbounded
+pending skip); (2b) several inputs into one destination (-o FILE) x compress / decompress x -qq / -q / default / -v x -f x --rm x the answer at the
+prompt: same skeleton as Cli.program, sources never removed nor modified, nothing touched when refused."""
 import os, re, shutil, subprocess, tempfile, hashlib
 import build, zv, frames, clitrace
 
 ASSUMPTIONS = ["data for which write() returned is durable: power loss and fsync semantics are outside the model; system-call ERRORS (ENOSPC ...) are outside the property's quantifier",
-               "the invocation grammar is finite: compress / decompress / test x --rm x -f x -c x -o (one input) x 1-3 inputs x pre-existing / missing / corrupted files; other options are exercised by the pinned test suite only"]
+               "the invocation grammar is finite: compress / decompress / test x --rm x -f x -c x -o (one input, or 2-3 inputs into the one output) x -qq / -q / default / -v x answer at the prompt (y / n / end of file) x 1-3 inputs x pre-existing / missing / corrupted files; other options are exercised by the pinned test suite only",
+               "sparse writer: buffers handed to AIO_fwriteSparse are at most 1 MiB each (the CLI's are 128 KiB); zero RUNS are unbounded (tied up to 8 GiB + 1 MiB)"]
 
 
 def hx_sparse():
     return build.link("zvh_sparse", ["zvh_sparse.c"], "plain", extra=["-I" + os.path.join(build.REPO, "programs")])
+
+
+def hx_sparsebig():
+    return build.link("zvh_sparsebig", ["zvh_sparsebig.c"], "plain", extra=["-I" + os.path.join(build.REPO, "programs")])
+
+
+GIB = 1 << 30
+BIG_BUFS = [131072, 131072, 32768, 65536 + 8, 131072 + 5, 1 << 20, 4096 * 3 + 1]     # 131072 = the CLI's write-job size; +5 / +1: the byte-wise tail also accumulates
+
+
+def big_items(rng, skip, bsize, shape):
+    """items (zvh_sparsebig / `zvdriver cli` sparsebig syntax) in which the writer's PENDING SKIP is exactly `skip` bytes when it is consumed
+    (by the next write, or by the explicit last zero).  What counts towards it (fileio_asyncio.c): whole zero buffers; the leading zero WORDS of the
+    buffer that follows; leading zero bytes of its last partial word.  Zeros after a non-zero word in the preceding buffer are written, not skipped."""
+    def nz(n):
+        return bytes(rng.randint(1, 255) for _ in range(n))
+    items = []
+    if shape != "nohead":
+        h, hz = rng.choice([(1, 0), (7, 0), (8, 0), (9, 0), (24, 0), (8, 8), (3, 5), (1, 7), (16, 40)])      # trailing zeros only up to a word boundary: written with their segment
+        items.append((nz(h) + bytes(hz)).hex())
+    counted = 0
+    if shape != "notail":
+        w, z, m = rng.choice([0, 0, 1, 2, 5]), rng.choice([0, 0, 1, 3, 7]), rng.choice([1, 2, 8, 9])
+        counted = 8 * w + (z if z + m < 8 else 0)          # z zeros sharing a whole word with data are written; in the last partial word they are skipped
+        tail = (bytes(8 * w + z) + nz(m)).hex()
+    mid = skip - counted
+    cnt, rest = divmod(mid, bsize)
+    k = rng.randrange(cnt + 1) if rng.random() < 0.5 else cnt                   # the shorter buffer somewhere inside the run
+    if k:
+        items.append("z%dx%d" % (bsize, k))
+    if rest:
+        items.append("z%dx1" % rest)
+    if cnt - k:
+        items.append("z%dx%d" % (bsize, cnt - k))
+    if shape != "notail":
+        items.append(tail)
+    return items
+
+
+def gen_big(rng, quick):
+    """directed: pending skips just below, exactly at and just above 1, 2, 4 and 8 GiB (and 3, 6: an accumulator that is drained or wraps at
+    another power of two), consumed in the middle of the data, with nothing before, at the end (the explicit last zero), and two such runs
+    separated by a few bytes (the count must start again from zero)"""
+    lines = []
+    for t in (1, 2, 4, 8):
+        for d in (-8, -1, 0, 1, 8):                                               # one word / one byte below, exactly, one byte / one word above
+            lines.append("sparsebig " + " ".join(big_items(rng, t * GIB + d, 131072, "mid")))
+        for shape in ("notail", "nohead"):
+            lines.append("sparsebig " + " ".join(big_items(rng, t * GIB + rng.choice([0, 1, 8, 4096, 131072, rng.randrange(1, 1 << 20)]), rng.choice(BIG_BUFS), shape)))
+        lines.append("sparsebig " + " ".join(big_items(rng, t * GIB - rng.choice([1, 8, 4096, rng.randrange(1, 1 << 20)]), rng.choice(BIG_BUFS), rng.choice(["mid", "notail", "nohead"]))))
+        a = big_items(rng, t * GIB + rng.randrange(0, 1 << 16), rng.choice(BIG_BUFS), "mid")
+        b = big_items(rng, rng.choice([1, 2, 4]) * GIB + rng.randrange(0, 1 << 16), rng.choice(BIG_BUFS), "nohead")
+        lines.append("sparsebig " + " ".join(a + b))
+    for t in ((3, 6) if quick else (3, 5, 6, 7, 12, 16)):
+        lines.append("sparsebig " + " ".join(big_items(rng, t * GIB + rng.randrange(-(1 << 20), 1 << 20), rng.choice(BIG_BUFS), rng.choice(["mid", "notail"]))))
+    for _ in range(4 if quick else 40):                                         # any length in between
+        lines.append("sparsebig " + " ".join(big_items(rng, rng.randrange(1 << 20, 9 * GIB), rng.choice(BIG_BUFS), rng.choice(["mid", "notail", "nohead"]))))
+    return lines
+
+
+def big_total(line):
+    """bytes handed to the writer by a sparsebig line"""
+    tot = 0
+    for it in line.split()[1:]:
+        if it.startswith("z"):
+            a, b = it[1:].split("x")
+            tot += int(a) * int(b)
+        elif it != "-":
+            tot += len(it) // 2
+    return tot
+
+
+def big_frame(segments):
+    """a valid zstd frame (no content size, no checksum, 128 KiB window) that decodes to the segments: bytes = literal data (raw blocks),
+    int = that many zero bytes (RLE blocks of a zero byte, 128 KiB each + one shorter): ~1 byte of frame per 32 KiB of zeros"""
+    def bh(last, btype, size):
+        return ((size << 3) | (btype << 1) | last).to_bytes(3, "little")
+    blk = 128 * 1024
+    out = bytearray(b"\x28\xb5\x2f\xfd\x00\x38")
+    for seg in segments:
+        if isinstance(seg, int):
+            n, r = divmod(seg, blk)
+            out += (bh(0, 1, blk) + b"\0") * n
+            if r:
+                out += bh(0, 1, r) + b"\0"
+        else:
+            for i in range(0, len(seg), blk):
+                out += bh(0, 0, len(seg[i:i + blk])) + seg[i:i + blk]
+    out += bh(1, 0, 0)
+    return bytes(out)
+
+
+def holes_supported(d):
+    p = os.path.join(d, ".holes")
+    with open(p, "wb") as f:
+        f.seek(8 << 20); f.write(b"x")
+    st = os.stat(p)
+    os.unlink(p)
+    return st.st_blocks * 512 < (4 << 20) and hasattr(os, "SEEK_DATA")
+
+
+def check_sparse_file(path, segments, budget=256 << 20):
+    """is the file exactly the concatenation of the segments?  Only its data extents are read (SEEK_DATA / SEEK_HOLE): a hole reads as zeros by definition.
+    Returns None or a description of the first difference."""
+    total = sum(s if isinstance(s, int) else len(s) for s in segments)
+    marks, off = [], 0
+    for sg in segments:
+        if not isinstance(sg, int):
+            marks.append((off, sg))
+        off += sg if isinstance(sg, int) else len(sg)
+    size = os.stat(path).st_size
+    if size != total:
+        return "the file has %d bytes, the library decodes %d bytes (%d missing = %.3f GiB)" % (size, total, total - size, (total - size) / GIB)
+    fd = os.open(path, os.O_RDONLY)
+    try:
+        for o, m in marks:
+            if os.pread(fd, len(m), o) != m:
+                return "the %d data bytes the library decodes at offset %d are not there" % (len(m), o)
+        pos, readb = 0, 0
+        while pos < size:
+            try:
+                a = os.lseek(fd, pos, os.SEEK_DATA)
+            except OSError:
+                break                                                   # ENXIO: only a hole up to the end
+            b = os.lseek(fd, a, os.SEEK_HOLE)
+            while a < b and readb < budget:
+                n = min(b - a, 1 << 20)
+                got = os.pread(fd, n, a)
+                exp = bytearray(n)
+                for o, m in marks:
+                    lo, hi = max(o, a), min(o + len(m), a + n)
+                    if lo < hi:
+                        exp[lo - a:hi - a] = m[lo - o:hi - o]
+                if got != bytes(exp):
+                    k = next(i for i in range(n) if got[i] != exp[i])
+                    return "byte at offset %d is 0x%02x, the library decodes 0x%02x" % (a + k, got[k], exp[k])
+                a += n; readb += n
+            pos = b
+    finally:
+        os.close(fd)
+    return None
+
+
+def big_cli_jobs(rng, quick):
+    """end to end through the write pool of the real binary: decompression of frames whose content has zero runs beyond 4 GiB / 8 GiB"""
+    def mk(n):
+        return bytes(rng.randint(1, 255) for _ in range(n))
+    d1, d2, d3 = (rng.choice([0, 8, 4096, 131072, rng.randrange(1, 1 << 22)]) for _ in range(3))
+    jobs = [dict(name="runs", flags=["--sparse"], preexisting=False, segments=[mk(16), 4 * GIB + d1, mk(rng.choice([1, 8, 21])), 2 * GIB + d2, mk(16)]),
+            dict(name="end", flags=["-f"], preexisting=True, segments=[mk(rng.choice([5, 16, 70000])), 8 * GIB + d3])]      # default sparse mode: existing regular file + -f; file ends inside the run
+    if not quick:
+        jobs.append(dict(name="long", flags=["--sparse"], preexisting=False, segments=[mk(9), 12 * GIB + d1, mk(3), 4 * GIB - d2 - 1, mk(2), 4 * GIB + d3]))
+    return jobs
+
+
+def big_cli_one(exe, root, job):
+    d = tempfile.mkdtemp(prefix="big-", dir=root)
+    try:
+        open(os.path.join(d, "img.zst"), "wb").write(big_frame(job["segments"]))
+        if job["preexisting"]:
+            open(os.path.join(d, "img"), "wb").write(b"previous content")
+        t = subprocess.run([exe, "-q", "-t", "img.zst"], cwd=d, stdout=subprocess.DEVNULL, stderr=subprocess.PIPE)
+        r = subprocess.run([exe, "-q", "-d"] + job["flags"] + ["img.zst", "-o", "img"], cwd=d, stdout=subprocess.DEVNULL, stderr=subprocess.PIPE, timeout=600)
+        shape = " ".join(("%d zeros (%.3f GiB)" % (s, s / GIB)) if isinstance(s, int) else "<%d bytes>" % len(s) for s in job["segments"])
+        cmd = "zstd -q -d %s img.zst -o img   [content: %s]" % (" ".join(job["flags"]), shape)
+        if t.returncode != 0:
+            return "check machinery: the library rejects the generated frame: %s" % t.stderr.decode(errors="replace")[-200:], cmd, True
+        if r.returncode != 0:
+            return "exit status %d although the library accepts the frame (zstd -t): %s" % (r.returncode, r.stderr.decode(errors="replace")[-200:]), cmd, False
+        diff = check_sparse_file(os.path.join(d, "img"), job["segments"])
+        return (None if diff is None else "exit status 0 but the output is not what the library decodes: " + diff), cmd, False
+    finally:
+        shutil.rmtree(d, ignore_errors=True)
 
 
 def gen_buffers(rng):
@@ -68,6 +245,120 @@ def make_files(rng, d, names):
     return content
 
 
+LEVEL_FLAGS = {0: ["-qq"], 1: ["-q"], 2: [], 3: ["-v"]}
+
+
+def shared_grid(rng, quick):
+    """every combination of compress / decompress x display level x -f x --rm, the answer at the prompt both ways where a prompt is possible;
+    the file set (2-3 inputs, one missing / damaged, destination pre-existing) is drawn per job"""
+    jobs = []
+    for mode in ("c", "d"):
+        for level in (0, 1, 2, 3):
+            for force in (False, True):
+                for rm in (False, True):
+                    answers = ["y", "n"] if (level >= 2 and not force) else [rng.choice(["y", "n", ""])]
+                    for answer in answers:
+                        jobs.append(dict(mode=mode, level=level, force=force, rm=rm, answer=answer, seed=rng.getrandbits(48), kill=False, plain=False))
+    if not quick:
+        more = []
+        for rep_ in range(5):
+            for j in jobs:
+                more.append(dict(j, seed=rng.getrandbits(48)))
+        jobs += more
+    # kill points: in this mode every source must survive every kill point; one quiet and one talkative run that go ahead with --rm
+    # (clean file set: the run is long enough to have sources closed while the destination is still open)
+    for levels in ((0, 1), (2, 3)):
+        jobs.append(dict(mode=rng.choice(["c", "d"]), level=rng.choice(levels), force=True, rm=True, answer="", seed=rng.getrandbits(48), kill=True, plain=True))
+    return jobs
+
+
+def shared_one(exe, dec, root, job):
+    """one invocation `zstd [-d] <level> [-f] [--rm] -o out.bin f0 f1 [f2]`: skeleton vs Cli.program, and the property on the directory"""
+    rng = zv.Rng(job["seed"])
+    d = tempfile.mkdtemp(prefix="sh-", dir=root)
+    mode, level, force, rm, answer = job["mode"], job["level"], job["force"], job["rm"], job["answer"]
+    names = ["g%d.dat" % k for k in range(rng.choice([2, 2, 3]))]
+    content = make_files(rng, d, names)
+    inputs = list(names)
+    missing, bad, exists = [], [], []
+    out = "out.bin"
+    if mode == "d":
+        subprocess.run([exe, "-q", "--no-progress"] + names, cwd=d, check=False, stdout=subprocess.DEVNULL, stderr=subprocess.DEVNULL)
+        for nm in names:
+            os.unlink(os.path.join(d, nm))
+        inputs = [nm + ".zst" for nm in names]
+        if not job["plain"] and rng.random() < 0.25:
+            nm = rng.choice(inputs)
+            pth = os.path.join(d, nm)
+            b = bytearray(open(pth, "rb").read())
+            if rng.random() < 0.5 and len(b) > 12:
+                b = b[:rng.randrange(5, len(b))]
+            elif len(b) > 8:
+                b[rng.randrange(6, len(b))] ^= 1 << rng.randrange(8)
+            open(pth, "wb").write(b)
+    if not job["plain"] and rng.random() < 0.15:
+        nm = "nothere.x" + (".zst" if mode == "d" else "")
+        inputs.insert(rng.randrange(len(inputs) + 1), nm); missing.append(nm)
+    if not job["plain"] and rng.random() < 0.35:
+        open(os.path.join(d, out), "wb").write(b"previous content of " + out.encode()); exists.append(out)
+    if mode == "d":
+        present = [x for x in inputs if x not in missing]
+        rcv, vout, err = frames.run_lines(dec, ["dec 4000000 %s" % (open(os.path.join(d, nm), "rb").read().hex() or "-") for nm in present])
+        bad = [nm for nm, v in zip(present, vout) if not v.startswith("ok")]
+    before = {nm: open(os.path.join(d, nm), "rb").read() for nm in os.listdir(d)}
+    args = LEVEL_FLAGS[level] + ["--no-progress"] + (["-d"] if mode == "d" else []) + (["-f"] if force else []) + (["--rm"] if rm else [])
+    # the position of -o among the names does not matter to the tool
+    args += (["-o", out] + inputs) if rng.random() < 0.5 else (inputs + ["-o", out])
+    stdin_bytes = (answer.encode() + b"\n") * 8 if answer else b""
+    rc, so, se, txt = clitrace.run_traced(exe, args, d, input=stdin_bytes)
+    ops, nsys = clitrace.normalise(txt, d)
+    skel = [o for o in ops if not o.startswith(("read:", "write:", "seek:", "truncate:"))]
+    inv = "cli mode=%s force=%d rm=%d stdout=0 out=%s files=%s exists=%s missing=%s bad=%s level=%d confirm=%d" % (mode, force, rm, out, ",".join(inputs), ",".join(exists) or "-", ",".join(missing) or "-", ",".join(bad) or "-", level, answer == "y")
+    rcm, mout, merr = zv.run([zv.driver_exe(), "cli"], inv + "\n")
+    model = mout.strip().split()
+    after = {nm: open(os.path.join(d, nm), "rb").read() for nm in os.listdir(d)}
+    desc = "zstd %s   (stdin: %r)   [%s]" % (" ".join(args), answer, inv)
+    viol = []
+    go = force or (level >= 2 and answer == "y")
+    data = dict(kind="monitor-shared", invocation=args, stdin=answer, env=inv, files={k: len(v) for k, v in before.items()})
+    for nm in inputs:
+        if nm in missing:
+            continue
+        if nm not in after:
+            viol.append(("user data lost: source '%s' was removed although several inputs were concatenated into the one output '%s', which cannot stand for it (--rm must be switched off in this mode at every display level): %s" % (nm, out, desc), data, False))
+        elif after[nm] != before[nm]:
+            viol.append(("user data damaged: source '%s' was modified by a run that concatenates several inputs into '%s': %s" % (nm, out, desc), data, False))
+    if not go:
+        if after != before:
+            changed = sorted(set(k for k in set(after) | set(before) if after.get(k) != before.get(k)))
+            viol.append(("the run was refused (no -f, no 'y') but the directory changed (%s): %s" % (", ".join(changed), desc), data, False))
+        if rc == 0:
+            viol.append(("the run was refused (no -f, no 'y') but the exit status is 0: %s" % desc, data, False))
+    else:
+        ok_expected = not missing and not bad
+        if (rc == 0) != ok_expected:
+            viol.append(("exit status %d but the library's verdict / the environment says %s: %s | %s" % (rc, "success" if ok_expected else "failure", desc, se.decode(errors="replace")[-200:]), data, False))
+        if rc == 0:
+            want = b"".join(content[nm] for nm in names)
+            if mode == "c":
+                r = subprocess.run([exe, "-q", "-d", "-c", out], cwd=d, stdout=subprocess.PIPE, stderr=subprocess.DEVNULL)
+                got = r.stdout if r.returncode == 0 else None
+            else:
+                got = after.get(out)
+            if got != want:
+                viol.append(("exit status 0 but '%s' does not hold the concatenation of the inputs (%s bytes instead of %d): %s" % (out, "no" if got is None else len(got), len(want), desc), data, False))
+    for k in after:
+        if k not in before and k != out:
+            viol.append(("unexpected file '%s' left behind: %s" % (k, desc), data, False))
+    equal = skel == model
+    if not equal:
+        k = next((j for j in range(max(len(skel), len(model))) if j >= len(skel) or j >= len(model) or skel[j] != model[j]), 0)
+        viol.append(("file-operation sequence differs from the protocol model at step %d: %s\n   code : %s\n   model: %s" % (k, desc, " ".join(skel), " ".join(model)), dict(kind="tie-protocol", invocation=args, stdin=answer, env=inv, code=skel, model=model), True))
+    kill = (args, before, mode, inputs, out, bad, exists, go, content, names, dict(shared=True, stdin=stdin_bytes))
+    shutil.rmtree(d, ignore_errors=True)
+    return dict(inv=inv, violations=viol, equal=int(equal), kill=kill, code=" ".join(skel), model=" ".join(model))
+
+
 def correspondence(ctx):
     rng = ctx.rng
     quick = ctx.quick()
@@ -94,10 +385,45 @@ def correspondence(ctx):
             break
     ev += len(sl); distinct |= set(sl)
     samples.append(dict(op=sl[0][:100], code=co[0][:100] if co else "", model=mo[0][:100] if mo else ""))
+    # ---------------- (1b) sparse writer, zero runs of several GiB (virtual file) ----------------
+    bl = gen_big(rng, quick)
+    bco = frames.parallel(lambda ch: frames.run_lines(hx_sparsebig(), ch, timeout=900)[1], frames.split_chunks(bl, 16))
+    rcm, bout, berr = zv.run([zv.driver_exe(), "cli"], "\n".join(bl) + "\n", timeout=900)
+    bmo = bout.split("\n")[:len(bl)]
+    big_bad = 0
+    for ln, a, b in zip(bl, bco, bmo):
+        total = big_total(ln)
+        m = re.match(r"(size=(\d+) ops=\S*) misplaced=(\d+) nzin=(\d+) nzout=(\d+)$", a)
+        shape = " ".join(t if t.startswith("z") else "<%d bytes>" % (len(t) // 2) for t in ln.split()[1:])
+        if big_bad >= 3:
+            break
+        if m is None:
+            big_bad += 1
+            ctx.violation("sparse writer harness failed on [%s]: %s" % (shape, a[:200]), dict(kind="tie-sparsebig", op=ln[:20000], code=a, model=b), no_input=True)
+            continue
+        wrong_file = int(m.group(2)) != total or int(m.group(3)) != 0 or m.group(4) != m.group(5)
+        if wrong_file:
+            big_bad += 1
+            ctx.violation("sparse writer damages the file: %d bytes handed in [%s], the file has %d bytes (%d missing = %.3f GiB), %d write calls land at an offset that is not the data's, %s of %s non-zero bytes written; calls: code %s / model %s"
+                          % (total, shape, int(m.group(2)), total - int(m.group(2)), (total - int(m.group(2))) / GIB, int(m.group(3)), m.group(5), m.group(4), m.group(1)[:160], b[:160]),
+                          dict(kind="tie-sparsebig", op=ln[:20000], code=a, model=b))
+        elif m.group(1) != b:
+            big_bad += 1
+            ctx.violation("sparse writer and model disagree on the seek / write calls for [%s]: code %s / model %s" % (shape, m.group(1)[:200], b[:200]),
+                          dict(kind="tie-sparsebig", op=ln[:20000], code=a, model=b), no_input=True)
+    if len(bco) != len(bl) or len(bmo) != len(bl):
+        ctx.violation("sparse writer (huge runs): %d lines, %d answers from the code, %d from the model" % (len(bl), len(bco), len(bmo)), dict(kind="tie-sparsebig", op="-"), no_input=True)
+    ev += len(bl); distinct |= set(bl)
+    samples.append(dict(op=bl[0][:100], code=bco[0][:100] if bco else "", model=bmo[0][:100] if bmo else ""))
     # ---------------- (2) protocol skeleton + directory monitors ----------------
     exe = build.cli_binary("plain")
     dec = frames.harness("plain")
     root = tempfile.mkdtemp(prefix="zvcli-", dir=os.path.join(build.CACHE))
+    # ---- (1c) the same runs end to end: the real binary decompresses frames with zero runs beyond 4 / 8 GiB into a sparse file (started here, collected below)
+    from concurrent.futures import ThreadPoolExecutor as _TPE0
+    big_jobs = big_cli_jobs(rng, quick) if holes_supported(root) else []
+    big_pool = _TPE0(max_workers=3)
+    big_fut = [big_pool.submit(big_cli_one, exe, root, j) for j in big_jobs]
     ninv = 60 if quick else 900
     skel_ok = 0
     kill_targets = []
@@ -109,6 +435,9 @@ def correspondence(ctx):
             names = ["f%d.dat" % k for k in range(rng.choice([1, 1, 2, 3]))]
             content = make_files(rng, d, names)
             force, rm, stdout_ = rng.random() < 0.3, rng.random() < 0.5, rng.random() < 0.15
+            level = rng.choice([1, 1, 1, 1, 0, 2, 2, 3])            # -q (as before) | -qq | default | -v : decides whether a question is asked, nothing else
+            answer = rng.choice(["y", "n", ""])                    # what stdin holds if the tool asks ("" = end of file)
+            ow = force or (level >= 2 and answer == "y")           # an existing destination may be replaced
             out = None
             missing, bad, exists = [], [], []
             inputs = list(names)
@@ -152,21 +481,22 @@ def correspondence(ctx):
                     if not v.startswith("ok"):
                         bad.append(nm)
             before = {nm: open(os.path.join(d, nm), "rb").read() for nm in os.listdir(d)}
-            args = ["-q", "--no-progress"] + ({"c": [], "d": ["-d"], "t": ["-t"]}[mode]) + (["-f"] if force else []) + (["--rm"] if rm else []) + (["-c"] if stdout_ else []) + (["-o", out] if out else []) + inputs
+            args = LEVEL_FLAGS[level] + ["--no-progress"] + ({"c": [], "d": ["-d"], "t": ["-t"]}[mode]) + (["-f"] if force else []) + (["--rm"] if rm else []) + (["-c"] if stdout_ else []) + (["-o", out] if out else []) + inputs
             if "-c" in args and force:
                 pass
-            rc, so, se, txt = clitrace.run_traced(exe, args, d)
+            stdin_bytes = (answer.encode() + b"\n") * 8 if answer else b""
+            rc, so, se, txt = clitrace.run_traced(exe, args, d, input=stdin_bytes)
             ops, nsys = clitrace.normalise(txt, d)
             skel = [o for o in ops if not o.startswith(("read:", "write:", "seek:", "truncate:"))]
             skel = [re.sub(r"^exit:(\d+)$", r"exit:\1", o) for o in skel]
-            inv = "cli mode=%s force=%d rm=%d stdout=%d out=%s files=%s exists=%s missing=%s bad=%s" % (mode, force, rm, stdout_, out or "-", ",".join(inputs), ",".join(exists) or "-", ",".join(missing) or "-", ",".join(bad) or "-")
+            inv = "cli mode=%s force=%d rm=%d stdout=%d out=%s files=%s exists=%s missing=%s bad=%s level=%d confirm=%d" % (mode, force, rm, stdout_, out or "-", ",".join(inputs), ",".join(exists) or "-", ",".join(missing) or "-", ",".join(bad) or "-", level, answer == "y")
             rcm, mout, merr = zv.run([zv.driver_exe(), "cli"], inv + "\n")
             model = mout.strip().split()
             after = {nm: open(os.path.join(d, nm), "rb").read() for nm in os.listdir(d)}
             ev += 1; distinct.add(inv)
-            desc = "zstd %s   [%s]" % (" ".join(args), inv)
+            desc = "zstd %s   (stdin: %r)   [%s]" % (" ".join(args), answer, inv)
             # ---- monitors: the property on this run ----
-            ok_expected = (not missing) and all(nm not in bad for nm in inputs) and not (mode != "t" and not stdout_ and not force and exists)
+            ok_expected = (not missing) and all(nm not in bad for nm in inputs) and not (mode != "t" and not stdout_ and not ow and exists)
             for nm in inputs:
                 if nm in missing:
                     continue
@@ -174,15 +504,15 @@ def correspondence(ctx):
                 src_intact = after.get(nm) == before[nm]
                 if mode == "c":
                     good_dst = False
-                    if dst in after and (dst not in before or after[dst] != before[dst] or force):
+                    if dst in after and (dst not in before or after[dst] != before[dst] or ow):
                         r = subprocess.run([exe, "-q", "-d", "-c", dst], cwd=d, stdout=subprocess.PIPE, stderr=subprocess.DEVNULL)
                         good_dst = (r.returncode == 0 and r.stdout == before[nm])
                 else:
                     good_dst = dst in after and nm not in bad and after[dst] == content.get(dst if not out else names[0], None)
                 if not src_intact and not good_dst and not stdout_:
                     ctx.violation("user data lost: after the run neither '%s' is intact nor '%s' holds its data: %s" % (nm, dst, desc), dict(kind="monitor", invocation=args, env=inv))
-                if mode != "t" and not stdout_ and dst in exists and not force and after.get(dst) != before.get(dst):
-                    ctx.violation("existing file '%s' overwritten without -f: %s" % (dst, desc), dict(kind="monitor", invocation=args, env=inv))
+                if mode != "t" and not stdout_ and dst in exists and not ow and after.get(dst) != before.get(dst):
+                    ctx.violation("existing file '%s' overwritten without -f (and without a 'y' at a prompt): %s" % (dst, desc), dict(kind="monitor", invocation=args, env=inv))
                 if nm in bad and mode == "d" and not stdout_ and dst not in exists and dst in after:
                     ctx.violation("failed decompression left '%s' behind: %s" % (dst, desc), dict(kind="monitor", invocation=args, env=inv))
                 if nm in bad and not src_intact:
@@ -196,7 +526,7 @@ def correspondence(ctx):
             else:
                 skel_ok += 1
             if i < (10 if quick else 60) and mode != "t" and not stdout_ and not missing:
-                kill_targets.append((args, before, mode, inputs, out, bad, exists, force, content, names))
+                kill_targets.append((args, before, mode, inputs, out, bad, exists, ow, content, names, dict(shared=False, stdin=stdin_bytes)))
             if mode == "d" and not stdout_ and not bad and not missing:
                 # --sparse vs --no-sparse
                 outs = []
@@ -214,6 +544,26 @@ def correspondence(ctx):
                             ctx.violation("--sparse and --no-sparse outputs differ (or differ from the original) for %s: %d / %d / %d bytes" % (nm, len(a), len(b), len(content[nm[:-4]])), dict(kind="monitor", file=nm, dir=d))
             shutil.rmtree(d, ignore_errors=True)
         samples.append(dict(op=inv, code=" ".join(skel), model=" ".join(model)))
+        for j, fu in zip(big_jobs, big_fut):
+            msg, cmd, machinery = fu.result()
+            ev += 1; distinct.add("bigcli " + cmd)
+            if msg is not None:
+                ctx.violation("sparse output of a huge zero run: %s: %s" % (msg, cmd), dict(kind="monitor-bigsparse", invocation=cmd, segments=[s if isinstance(s, int) else s.hex() for s in j["segments"]]), no_input=machinery)
+        big_pool.shutdown()
+        # ---------------- (2b) several inputs into one destination (-o FILE): directed grid ----------------
+        sh_jobs = shared_grid(rng, quick)
+        from concurrent.futures import ThreadPoolExecutor as _TPE
+        with _TPE(max_workers=8) as ex:
+            sh_res = list(ex.map(lambda j: shared_one(exe, dec, root, j), sh_jobs))
+        sh_equal = 0
+        for j, r in zip(sh_jobs, sh_res):
+            ev += 1; distinct.add(r["inv"])
+            for msg, data, noinp in r["violations"]:
+                ctx.violation(msg, data, no_input=noinp)
+            sh_equal += r["equal"]
+            if r["kill"] is not None and j["kill"]:
+                kill_targets.append(r["kill"])
+        samples.append(dict(op=sh_res[0]["inv"], code=sh_res[0]["code"], model=sh_res[0]["model"]))
         # ---- a write error on the output is a failed operation: non-zero exit status (single and concatenated inputs) ----
         d = os.path.join(root, "full"); os.makedirs(d)
         make_files(rng, d, ["a.dat", "b.dat"])
@@ -229,12 +579,12 @@ def correspondence(ctx):
         # ---------------- (3) kill points ----------------
         kills = 0
         kill_runs = []
-        for t, (args, before, mode, inputs, out, bad, exists, force, content, names) in enumerate(kill_targets):
+        for t, (args, before, mode, inputs, out, bad, exists, force, content, names, extra) in enumerate(kill_targets):
             # number of system calls of an undisturbed run
             d = os.path.join(root, "k%d" % t); os.makedirs(d)
             for nm, data in before.items():
                 open(os.path.join(d, nm), "wb").write(data)
-            r = subprocess.run(["strace", "-f", "-c", "-o", os.path.join(root, "cnt"), exe] + args, cwd=d, stdout=subprocess.DEVNULL, stderr=subprocess.DEVNULL)
+            r = subprocess.run(["strace", "-f", "-c", "-o", os.path.join(root, "cnt"), exe] + args, cwd=d, input=extra["stdin"], stdout=subprocess.DEVNULL, stderr=subprocess.DEVNULL)
             cnt = 0
             for l in open(os.path.join(root, "cnt")):
                 m = re.match(r"\s*[\d.]+\s+[\d.]+\s+\d+\s+(\d+)\s+(?:\d+\s+)?total", l)
@@ -249,16 +599,20 @@ def correspondence(ctx):
 
         def kill_one(job):
             t, k, sig = job
-            args, before, mode, inputs, out, bad, exists, force, content, names = kill_targets[t]
+            args, before, mode, inputs, out, bad, exists, force, content, names, extra = kill_targets[t]
             d = os.path.join(root, "kr%d_%d" % (t, k)); os.makedirs(d)
             for nm, data in before.items():
                 open(os.path.join(d, nm), "wb").write(data)
-            subprocess.run(["strace", "-f", "-o", "/dev/null", "-e", "trace=all", "-e", "inject=all:signal=%s:when=%d" % (sig, k), exe] + args, cwd=d, stdout=subprocess.DEVNULL, stderr=subprocess.DEVNULL, timeout=120)
+            subprocess.run(["strace", "-f", "-o", "/dev/null", "-e", "trace=all", "-e", "inject=all:signal=%s:when=%d" % (sig, k), exe] + args, cwd=d, input=extra["stdin"], stdout=subprocess.DEVNULL, stderr=subprocess.DEVNULL, timeout=120)
             after = {nm: open(os.path.join(d, nm), "rb").read() for nm in os.listdir(d)}
             msgs = []
             for nm in inputs:
                 dst = out or (nm + ".zst" if mode == "c" else nm[:-4])
-                if after.get(nm) == before[nm]:
+                if nm not in before or after.get(nm) == before[nm]:
+                    continue
+                if extra["shared"]:
+                    # several inputs into one output: that output can never stand for a source
+                    msgs.append("%s at system call %d: '%s' gone although it was concatenated with other inputs into '%s' (which is not even closed yet): zstd %s" % (sig, k, nm, dst, " ".join(args)))
                     continue
                 good = False
                 if dst in after:
@@ -284,11 +638,16 @@ def correspondence(ctx):
         shutil.rmtree(root, ignore_errors=True)
     return dict(evaluations=ev, distinct_nontrivial=len(distinct),
                 rule="sparse lines (buffer sequences with zero runs at word / 32 KiB segment / buffer edges) + one evaluation per CLI invocation (protocol skeleton vs model + directory monitors) + one per kill point; distinct = distinct sparse lines and invocation descriptors",
-                samples=samples[:3], invocations=ninv, skeletons_equal_to_model=skel_ok, kill_points=kills, kill_targets=len(kill_targets))
+                samples=samples[:5], invocations=ninv, skeletons_equal_to_model=skel_ok, huge_zero_run_lines=len(bl), huge_zero_run_cli_decompressions=len(big_jobs), shared_output_invocations=len(sh_jobs), shared_output_skeletons_equal=sh_equal, kill_points=kills, kill_targets=len(kill_targets))
 
 
 def replay(ctx, data):
     if data.get("kind") == "tie-sparse":
         co, mo, rc, err = zv.differential(hx_sparse(), "cli", [data["op"]])
         return dict(violates=co != mo, code=co, model=mo)
+    if data.get("kind") == "tie-sparsebig" and data.get("op", "-") != "-":
+        co, mo, rc, err = zv.differential(hx_sparsebig(), "cli", [data["op"]])
+        m = re.match(r"(size=(\d+) ops=\S*) misplaced=(\d+) nzin=(\d+) nzout=(\d+)$", co[0] if co else "")
+        bad = m is None or m.group(1) != (mo[0] if mo else "") or int(m.group(2)) != big_total(data["op"]) or int(m.group(3)) != 0 or m.group(4) != m.group(5)
+        return dict(violates=bad, code=co, model=mo)
     return dict(violates=True, note="re-run the check with the same VERIF_SEED: the invocation and its file set are derived from the seed", invocation=data.get("invocation"))
